@@ -58,17 +58,24 @@ Theorem C04_load_paths_in_order : forall isfile bases url f,
 Proof. exact load_paths_in_order. Qed.
 Print Assumptions C04_load_paths_in_order.
 
+(* Context::find_file (after fix 3dfdada): the names of the relative url are scanned first; when none
+   exists and the relative url differs from the url, the names of the url unchanged are scanned *)
+Theorem C04_fallback_unchanged : forall orc cur k u s,
+  try_names orc s (find_names cur k u) =
+  match try_names orc s (probe_names (relative cur u) (cands k)) with
+  | FNone s' => if String.eqb (relative cur u) u then FNone s' else try_names orc s' (probe_names u (cands k))
+  | r => r
+  end.
+Proof. exact find_file_two_phase. Qed.
+Print Assumptions C04_fallback_unchanged.
+
 (* importer at the root (its url has no directory part): the resolved file is one the text allows,
    over every file system and every list of load paths *)
 Theorem C04_root_allowed : forall isfile bases cur k url p f rd s',
   fst (split_dir cur) = "" -> is_direct url = false ->
   resolve isfile bases cur k url = FFound p f rd s' ->
   In f (allowed isfile (is_import k) (map dir_prefix bases) (fst (split_dir url)) (snd (split_dir url))).
-Proof.
-  intros isfile bases cur k url p f rd s' Hc Hd H.
-  pose proof (resolve_allowed isfile bases cur k url p f rd s') as R.
-  rewrite (relative_root cur url Hc) in R. auto.
-Qed.
+Proof. exact root_allowed. Qed.
 Print Assumptions C04_root_allowed.
 
 Theorem C04_root_none_iff : forall isfile bases cur k url,
@@ -76,12 +83,22 @@ Theorem C04_root_none_iff : forall isfile bases cur k url,
   ((exists s', resolve isfile bases cur k url = FNone s') <->
    existing_gen isfile (map dir_prefix bases)
      (cand_names (is_import k) (fst (split_dir url)) (snd (split_dir url))) = []).
-Proof.
-  intros isfile bases cur k url Hc Hd.
-  pose proof (resolve_none_iff isfile bases cur k url) as R.
-  rewrite (relative_root cur url Hc) in R. auto.
-Qed.
+Proof. exact root_none_iff. Qed.
 Print Assumptions C04_root_none_iff.
+
+(* importer in a sub-directory d (found under load path b0), every file system, every further load
+   paths: outside class K2 (a candidate exists as <other load path>/<d>/..) the resolved file is one
+   the text allows with the places: the importing file's directory, then every load path in order.
+   (Before fix 3dfdada this failed whenever the file existed only in a load path: F9.) *)
+Theorem C04_subdir_allowed : forall isfile b0 others cur k url p f rd s',
+  fst (split_dir cur) <> "" -> is_direct url = false -> is_direct (relative cur url) = false ->
+  (forall bo c, In bo others -> In c (spec_cands (is_import k)) ->
+      isfile (join bo (fst (split_dir cur) ++ spec_name (fst (split_dir url)) (snd (split_dir url)) c)%string) = None) ->
+  resolve isfile (b0 :: others) cur k url = FFound p f rd s' ->
+  In f (allowed isfile (is_import k) ((dir_prefix b0 ++ fst (split_dir cur))%string :: map dir_prefix (b0 :: others))
+          (fst (split_dir url)) (snd (split_dir url))).
+Proof. exact subdir_allowed. Qed.
+Print Assumptions C04_subdir_allowed.
 
 (* a load that finds nothing fails, except @import of the four documented forms *)
 Theorem C04_css_fallback : forall orc content f unq cur k u s s',
@@ -91,26 +108,8 @@ Theorem C04_css_fallback : forall orc content f unq cur k u s s',
 Proof. exact load_not_found. Qed.
 Print Assumptions C04_css_fallback.
 
-(* what the code does for ANY importer: it resolves the url `dir(importer url) ++ url` under the load
-   paths, as if that text had been written in a root file (this is the source of F9) *)
-Theorem C04_subdir_resolution : forall isfile bases cur k url p f rd s',
-  is_direct (relative cur url) = false ->
-  resolve isfile bases cur k url = FFound p f rd s' ->
-  In f (allowed isfile (is_import k) (map dir_prefix bases)
-          (fst (split_dir (relative cur url))) (snd (split_dir (relative cur url)))).
-Proof. exact resolve_allowed. Qed.
-Print Assumptions C04_subdir_resolution.
-
-(* F9: the full statement (places = importing file's directory, then the load paths) is false *)
-Theorem C04_refuted_subdir_unchanged :
-  exists files bases curid cur k url,
-    fs_lookup files bases cur = Some curid /\ is_direct url = false /\
-    resolved_file files bases cur k url = None /\
-    allowed (fs_isfile files) (is_import k) (fst (split_dir curid) :: map dir_prefix bases)
-      (fst (split_dir url)) (snd (split_dir url)) = ["L1/b.scss"].
-Proof. exact refuted_unchanged. Qed.
-Print Assumptions C04_refuted_subdir_unchanged.
-
+(* F9b (class K2): the statement for importers anywhere (places = importing file's directory, then
+   the load paths) is still false: <load path>/sub/c.scss is taken as relative to R/sub/a.scss *)
 Theorem C04_refuted_subdir_loadpath :
   exists files bases curid cur k url,
     fs_lookup files bases cur = Some curid /\ is_direct url = false /\
@@ -129,3 +128,8 @@ Example C04_root_example :
   exists p s', resolve (fs_isfile ["R/t.scss"; "R/_u.scss"; "L1/u.css"; "L1/_u.scss"]) ["R"; "L1"]
                  "t.scss" KUse "u" = FFound p "R/_u.scss" true s'.
 Proof. eexists _, _. vm_compute. reflexivity. Qed.
+
+(* the former F9 witness: the url unchanged in a load path is found from sub/a.scss *)
+Example C04_unchanged_url_found :
+  resolved_file ["R/t.scss"; "R/sub/a.scss"; "L1/b.scss"] ["R"; "L1"] "sub/a.scss" KUse "b" = Some "L1/b.scss".
+Proof. exact unchanged_now_found. Qed.
